@@ -63,6 +63,8 @@ union c33_un { int i; double dd; };
 c33_sv_t c33_mk(int x);
 union c33_un c33_mku(int x);
 long c33_sum(c33_sv_t s);
+long c33_sumpts(c33_sv_t *p, int n);
+long c33_sumrows(int (*r)[4], int n);
 """
 SV_SRC = """
 typedef struct { int a; long b; double c; char d; } c33_sv_t;
@@ -70,6 +72,8 @@ union c33_un { int i; double dd; };
 c33_sv_t c33_mk(int x) { c33_sv_t r; r.a = x; r.b = x * 100L + 1; r.c = x * 0.25; r.d = (char)(65 + x % 20); return r; }
 union c33_un c33_mku(int x) { union c33_un u; u.dd = 0; u.i = x * 3; return u; }
 long c33_sum(c33_sv_t s) { return s.a + s.b + (long)(s.c * 4) + s.d; }
+long c33_sumpts(c33_sv_t *p, int n) { long t = 0; int i; for (i = 0; i < n; i++) t += c33_sum(p[i]); return t; }
+long c33_sumrows(int (*r)[4], int n) { long t = 0; int i, k; for (i = 0; i < n; i++) for (k = 0; k < 4; k++) t += r[i][k]; return t; }
 """
 
 
@@ -331,6 +335,17 @@ def prop(case, ctx):
           [_outcome(lambda e=e: by_value(e)) for e in ENGINES], 'struct-by-value-results-kept',
           expected=[[(x, x * 100 + 1, x * 0.25, bytes([65 + x % 20])) for x in xs], [x * 3 for x in xs],
                     [x + x * 100 + 1 + x + 65 + x % 20 for x in xs]])
+
+    # 0b. pointer arguments given as lists of *partial* initialisers (what is not mentioned must read
+    #     as zero), below and above the 640-byte threshold between stack and heap temporaries
+    def partial_lists(e):
+        ffi, lib = builds[e]
+        return [lib.c33_sumpts([{}, {'a': 1}], 2), lib.c33_sumpts([{'b': 5}] + [{}] * 3, 4),
+                lib.c33_sumpts([{'a': 2}, {}] * 20, 40), lib.c33_sumrows([[1], [2, 3]], 2),
+                lib.c33_sumrows([[7]] * 3 + [[]] * 2, 5), lib.c33_sumrows([[1, 1]] * 50, 50)]
+    check('pointer arguments from lists of partial initialisers',
+          [_outcome(lambda e=e: partial_lists(e)) for e in ENGINES], 'partial-initialiser-lists',
+          expected=[1, 5, 40, 6, 21, 100])
 
     # 1. names
     names = [sorted(n for n in dir(builds[e][1]) if not n.startswith('_')) for e in ENGINES]
